@@ -124,6 +124,25 @@ Fixpoint first_n (fuel n : nat) (g : gp) (o : oracle) (c : nat) : list val :=
 
 (* ------------------------------------------------------------------ SAFETY *)
 (* Safe P g: every value g can ever yield satisfies P, for every oracle *)
+Definition Positional (Q : nat -> val -> Prop) (vs : list val) : Prop := forall m v, nth_error vs m = Some v -> Q m v.
+
+Lemma Positional_nil (Q : nat -> val -> Prop) : Positional Q [].
+Proof. intros [|m] v H; discriminate. Qed.
+
+Lemma Positional_snoc (Q : nat -> val -> Prop) vs v : Positional Q vs -> Q (List.length vs) v -> Positional Q (vs ++ [v]).
+Proof.
+  intros H Hv m u Hm. destruct (Nat.lt_ge_cases m (List.length vs)) as [Hlt|Hge].
+  - rewrite nth_error_app1 in Hm by exact Hlt. apply H; exact Hm.
+  - rewrite nth_error_app2 in Hm by exact Hge. destruct (m - List.length vs) as [|d] eqn:E.
+    + cbn in Hm. injection Hm as <-. replace m with (List.length vs) by lia. exact Hv.
+    + cbn in Hm. destruct d; discriminate.
+Qed.
+
+Lemma Positional_Forall (Q : nat -> val -> Prop) (P : val -> Prop) vs : (forall m v, Q m v -> P v) -> Positional Q vs -> Forall P vs.
+Proof.
+  intros HQ H. apply Forall_forall. intros v Hin. apply In_nth_error in Hin as [m Hm]. eapply HQ. apply H. exact Hm.
+Qed.
+
 Inductive Safe (P : val -> Prop) : gp -> Prop :=
 | S_stop : Safe P GStop
 | S_yield v k : P v -> Safe P k -> Safe P (GYield v k)
@@ -141,7 +160,11 @@ Inductive Safe (P : val -> Prop) : gp -> Prop :=
     Safe Q g -> Forall Q acc -> (forall vs, Forall Q vs -> Safe P (k vs)) -> Safe P (GTake n g acc k)
 | S_round (Q : nat -> val -> Prop) n gs i buf emit k :
     (forall j, Safe (Q j) (gs j)) -> Forall (fun v => exists j, Q j v) buf ->
-    (forall vs, Forall (fun v => exists j, Q j v) vs -> Forall P (emit vs)) -> Safe P k -> Safe P (GRound n gs i buf emit k).
+    (forall vs, Forall (fun v => exists j, Q j v) vs -> Forall P (emit vs)) -> Safe P k -> Safe P (GRound n gs i buf emit k)
+| S_zip (Q : nat -> val -> Prop) n gs i buf emit k :
+    (* POSITIONAL: the m-th value of a round was pulled from generator m (what zip needs: tuple_of) *)
+    (forall j, Safe (Q j) (gs j)) -> List.length buf = i -> Positional Q (rev buf) ->
+    (forall vs, Positional Q vs -> Forall P (emit vs)) -> Safe P k -> Safe P (GRound n gs i buf emit k).
 
 Lemma Safe_emit_all P vs k : Forall P vs -> Safe P k -> Safe P (emit_all vs k).
 Proof. induction 1; cbn; eauto using Safe. Qed.
@@ -207,18 +230,32 @@ Proof.
                      | apply H1; apply Forall_rev; assumption
                      | apply H1; apply Forall_rev; assumption ] ] ].
   (* round *)
-  destruct (Nat.eqb n 0); [injection E as <- <- <-; split; [discriminate|assumption]|].
-  destruct (Nat.leb n i).
-  - injection E as <- <- <-. split; [discriminate|]. apply Safe_emit_all; [apply H2; apply Forall_rev; assumption|].
-    eapply S_round with (Q := Q); eauto.
-  - destruct (step (gs i) o c) as [[e1 g1] c1] eqn:E1. destruct (H0 i _ _ _ _ _ E1) as [Hv Hs].
-    assert (Hgs : forall j, Safe (Q j) (if Nat.eqb j i then g1 else gs j)).
-    { intros j. destruct (Nat.eqb_spec j i); [subst; exact Hs|apply H]. }
-    destruct e1 as [v| | |]; injection E as <- <- <-; (split; [discriminate|]).
-    + eapply S_round with (Q := Q); try eassumption. constructor; [exists i; apply Hv; reflexivity|assumption].
-    + eapply S_round with (Q := Q); eassumption.
-    + assumption.
-    + assumption.
+  - destruct (Nat.eqb n 0); [injection E as <- <- <-; split; [discriminate|assumption]|].
+    destruct (Nat.leb n i).
+    + injection E as <- <- <-. split; [discriminate|]. apply Safe_emit_all; [apply H2; apply Forall_rev; assumption|].
+      eapply S_round with (Q := Q); eauto.
+    + destruct (step (gs i) o c) as [[e1 g1] c1] eqn:E1. destruct (H0 i _ _ _ _ _ E1) as [Hv Hs].
+      assert (Hgs : forall j, Safe (Q j) (if Nat.eqb j i then g1 else gs j)).
+      { intros j. destruct (Nat.eqb_spec j i); [subst; exact Hs|apply H]. }
+      destruct e1 as [v| | |]; injection E as <- <- <-; (split; [discriminate|]).
+      * eapply S_round with (Q := Q); try eassumption. constructor; [exists i; apply Hv; reflexivity|assumption].
+      * eapply S_round with (Q := Q); eassumption.
+      * assumption.
+      * assumption.
+  (* zip: the same steps, the positional invariant *)
+  - destruct (Nat.eqb n 0); [injection E as <- <- <-; split; [discriminate|assumption]|].
+    destruct (Nat.leb n i).
+    + injection E as <- <- <-. split; [discriminate|]. apply Safe_emit_all; [apply H3; assumption|].
+      eapply S_zip with (Q := Q); eauto using Positional_nil.
+    + destruct (step (gs i) o c) as [[e1 g1] c1] eqn:E1. destruct (H0 i _ _ _ _ _ E1) as [Hv Hs].
+      assert (Hgs : forall j, Safe (Q j) (if Nat.eqb j i then g1 else gs j)).
+      { intros j. destruct (Nat.eqb_spec j i); [subst; exact Hs|apply H]. }
+      destruct e1 as [v| | |]; injection E as <- <- <-; (split; [discriminate|]).
+      * eapply S_zip with (Q := Q); try eassumption; [cbn; congruence|].
+        cbn [rev]. apply Positional_snoc; [assumption|]. rewrite rev_length. subst i. apply Hv; reflexivity.
+      * eapply S_zip with (Q := Q); eassumption.
+      * assumption.
+      * assumption.
 Qed.
 
 Theorem run_safe P : forall fuel g o c, Safe P g -> Forall P (fst (run fuel g o c)).
@@ -239,6 +276,7 @@ Proof.
   - eapply S_map; eauto.
   - eapply S_take; eauto.
   - eapply S_round; eauto. intros vs Hvs. eapply Forall_impl; [|apply H2; exact Hvs]. auto.
+  - eapply S_zip; eauto. intros vs Hvs. eapply Forall_impl; [|apply H3; exact Hvs]. auto.
 Qed.
 
 (* ------------------------------------------------------------------ PRODUCTIVITY *)
